@@ -4,6 +4,8 @@ import (
 	"encoding/json"
 	"fmt"
 	"net/http"
+	"os"
+	"path/filepath"
 	"regexp"
 	"sort"
 	"strings"
@@ -489,6 +491,32 @@ func runC20(c *worker.Ctx) {
 	var plan simio.Plan
 	injected := map[string]bool{}
 	loopEvery := 0
+	// Remote path, a third of the cases: the run's outcome goes through the
+	// fetcher's on-disk cache and a second, fault-free run follows.
+	cacheHistory := !terra && c.T.Bool(1, 3)
+	apiHealthy := false
+	var second struct {
+		ran, fromCache bool
+		snips          *snippet.Snippets
+		err            error
+	}
+	if cacheHistory {
+		dir, err := os.MkdirTemp(".", "c20cache-")
+		if err != nil {
+			panic("c20: cannot create the cache directory: " + err.Error())
+		}
+		dir, _ = filepath.Abs(dir)
+		oldXDG, hadXDG := os.LookupEnv("XDG_CACHE_HOME")
+		os.Setenv("XDG_CACHE_HOME", dir)
+		defer func() {
+			if hadXDG {
+				os.Setenv("XDG_CACHE_HOME", oldXDG)
+			} else {
+				os.Unsetenv("XDG_CACHE_HOME")
+			}
+			os.RemoveAll(dir)
+		}()
+	}
 	// Terraform path: the plan may hold further services; cmd/falco builds one
 	// fetcher for the plan and, service after service, selects it with SetName
 	// and generates. Every service must get exactly its own resources.
@@ -574,7 +602,7 @@ func runC20(c *worker.Ctx) {
 		} else {
 			api = simnet.NewFastlyAPI(r, func(path string, n int) simnet.APIFault {
 				f := simnet.APIFault{Kind: "ok", Latency: time.Duration(c.T.Draw(400)) * time.Millisecond}
-				if faulty && c.T.Bool(1, 6) {
+				if faulty && !apiHealthy && c.T.Bool(1, 6) {
 					switch c.T.Draw(7) {
 					case 0:
 						f.Kind, f.Status = "status", []int{401, 404, 429, 500, 503}[c.T.Draw(5)]
@@ -609,7 +637,22 @@ func runC20(c *worker.Ctx) {
 					}
 					done <- struct{}{}
 				}()
-				snips, ferr = snippet.Fetch(remote.NewFastlyApiFetcher("SID", "KEY", 5*time.Second))
+				f1 := remote.NewFastlyApiFetcher("SID", "KEY", 5*time.Second)
+				snips, ferr = snippet.Fetch(f1)
+				if cacheHistory {
+					// What falco's runner does with the outcome, whatever it is: hand it
+					// to the fetcher's cache. Then a second run, with a healthy API,
+					// starts from what the first one left on disk.
+					f1.WriteCache(snips)
+					apiHealthy = true
+					f2 := remote.NewFastlyApiFetcher("SID", "KEY", 5*time.Second)
+					second.ran = true
+					if cached := f2.LookupCache(false); cached != nil {
+						second.snips, second.fromCache = cached, true
+					} else {
+						second.snips, second.err = snippet.Fetch(f2)
+					}
+				}
 				finished = true
 			})
 		}
@@ -716,6 +759,30 @@ func runC20(c *worker.Ctx) {
 	}
 	if len(res.Violations) == 0 {
 		judge(r, snips, ferr, "")
+		if second.ran && len(res.Violations) == 0 {
+			res.Probe("second_run_after_cache_write")
+			if second.fromCache {
+				res.Probe("second_run_served_from_cache")
+			}
+			keepInjected, keepOutcome := injected, outcome
+			injected = map[string]bool{} // the second run met no fault: it must succeed and be faithful
+			how := "(second run with a healthy API after the first run's outcome was handed to the cache; "
+			if second.fromCache {
+				how += "served from the cache file; "
+			} else {
+				how += "fetched again; "
+			}
+			if ferr != nil {
+				how += "the first run had failed: " + clip(firstLine(ferr.Error()), 80) + ") "
+			} else {
+				how += "the first run had succeeded) "
+			}
+			judge(r, second.snips, second.err, how)
+			for i := range res.Violations {
+				res.Violations[i].Key = strings.Replace(res.Violations[i].Key, "C20/", "C20/second-run:", 1)
+			}
+			injected, outcome = keepInjected, keepOutcome
+		}
 		if len(svcs) > 1 && ferr == nil {
 			res.Probe("terraform_multi_service_plan")
 			for _, sv := range svcs {
